@@ -13,6 +13,11 @@ def main(tier):
     c = vlib.Check("C10", tier)
     c.phase_proofs()
     c.phase_proofs("HtmlBytes")   # byte-level forms via the lexer round trip (Proofs/HtmlLexRt.v)
+    # the shape clauses as theorems about the parser models (Props/ParserShape.v), and the tie of the block-phase
+    # model those theorems talk about
+    c.phase_proofs("ParserShape")
+    from checks import layerc
+    layerc.blocks(c, tier, 0.2 if tier == "quick" else 0.1)
     n = 3000 if tier == "quick" else 30000
     recs = htmlfam.tie_html(c, n, 400 if tier == "quick" else 4000)
     if recs is None:
@@ -77,7 +82,7 @@ def main(tier):
     c.cov["spec_checks"]["html_balanced_check(real html) = 0 where raw HTML is not passed through"] = len(live)
     c.cov["spec_checks"]["S2, S3, S6w on dumped parser trees"] = len(ok)
     c.cov["partial_clauses"] = ["the byte-level statement (lexer round trip) is evaluated on the real output, not proved",
-                                "S2/S3/S6w are proved of no parser model; they are evaluated on every dumped tree"]
+                                "S2/S3/S6w are theorems about the parser models (Props/ParserShape.v: block phase, inline phase, footnote pass and their composition final_tree); that finalize_document + postprocess_text_nodes of the compiled parser is that composition is not modelled as one function, so the clauses stay evaluated on every dumped tree"]
     c.assumptions = ["no plugins (heading adapter, syntax highlighter) — they write arbitrary bytes"]
     c.finish(rule="distinct by (options, document); non-trivial = the dumped tree has more than four nodes",
              trusted_base=htmlfam.TRUSTED)
